@@ -205,10 +205,12 @@ impl ReadZone {
             // records would need to be synthesized prior to signing) and
             // option 3, as stated, may still result in a large response.
             let guard = rrsets.iter();
+            //
+            // The map also holds RRsets that don’t exist in our version, so
+            // pick the first one that does.
             guard
                 .iter()
-                .next()
-                .and_then(|(_rtype, rrset)| rrset.get(self.version))
+                .find_map(|(_rtype, rrset)| rrset.get(self.version))
                 .map(|rrset| NodeAnswer::data(rrset.clone()))
                 .unwrap_or_else(NodeAnswer::no_data)
         } else {
